@@ -1155,7 +1155,9 @@ pub fn generate(prop: &str, out: &mut Out, thorough: bool, seed: u64) -> bool {
     };
     let mut rng = Rng::new(seed ^ 0xDEC0 ^ (prop.as_bytes()[2] as u64) << 8);
     let encs: Vec<&'static Encoding> = ALL.to_vec();
-    if prop == "C10" {
+    // every BOM life-cycle state, systematically: C10 is about them, C19 and C07 answer queries in them
+    // (e.g. ConvertingWithPendingBB is reached only through EF BB <non-BF> with a stop in between)
+    if prop == "C10" || prop == "C19" || prop == "C07" {
         gen_bom_universe(out, &mut rng, &encs, &props, thorough);
     }
     if prop == "C05" || prop == "C06" {
